@@ -169,11 +169,15 @@ def gen_pair(rng, hostile):
     nrules = rng.choice([1, 1, 1, 2, 3])
     nfilters = rng.choice([1, 1, 2, 2, 3]) if rng.random() < 0.9 else 0
     rules, filters, lss = [], [], []
+    fnames_all = [rng.sample(fn_pool, rng.randint(1, 3 if nfilters < 3 else 2)) for _ in range(nfilters)]
+    flat_fnames = [n for ns in fnames_all for n in ns]
     for i in range(nrules):
         names = rng.sample(rn_pool, rng.choice([1, 2, 2, 3, 3, 4]))
         dets = {n: det_body(ctr.next()) for n in names}
         nconds = 1 if rng.random() < 0.85 else 2
-        conds = [spell(gen_expr(rng, names, own_pats(rng, names, rp_pool), rng.choice([0, 1, 1, 2])), rng) for _ in range(nconds)]
+        # the rule's patterns are drawn from its own names AND the filters' names (capture needs the overlap)
+        conds = [spell(gen_expr(rng, names, own_pats(rng, names + flat_fnames, rp_pool), rng.choice([0, 1, 1, 2])), rng)
+                 for _ in range(nconds)]
         if hostile and rng.random() < 0.04:
             conds[0] = rng.choice([names[0] + ") or (" + names[-1], "(" + names[0], names[0] + " and", "1 of nomatch*",
                                    names[0] + " | count() > 1", names[0] + " and 1 of zz*"])
@@ -183,7 +187,7 @@ def gen_pair(rng, hostile):
         name = rng.choice(["rule_%d" % i, "rule_%d" % i, UUIDISH_NAME]) if rng.random() < 0.6 else None
         rules.append(mk_rule("r%d" % i, rls, dets, conds, rid, name))
     for j in range(nfilters):
-        names = rng.sample(fn_pool, rng.randint(1, 3 if nfilters < 3 else 2))
+        names = fnames_all[j]
         dets = {n: det_body(ctr.next()) for n in names}
         cond = spell(gen_expr(rng, names, own_pats(rng, names, fp_pool), rng.choice([0, 1, 1, 2]), pnot=0.4), rng)
         fls = rng.choice(lss) if rng.random() < 0.8 else rng.choice(all_ls())
@@ -500,6 +504,18 @@ def mutate_apply(c, rng):
         nd[i]["filter"]["rules"] = "any"
         nd[i]["logsource"] = next((x["logsource"] for x in docs if "detection" in x), nd[i]["logsource"])
         out.append(dict(c, docs=nd))
+        # rule conditions whose patterns would match the filter's names if isolation failed
+        for k, r in enumerate(docs):
+            if "detection" not in r:
+                continue
+            for n in names:
+                for cond in ["1 of *" + n[-2:], "not 1 of *_" + n.split("_")[-1], "all of " + n[:2] + "*", "1 of them", "not 1 of *"]:
+                    if re.fullmatch(r"[A-Za-z0-9_* ]+", cond):
+                        nd = copy.deepcopy(docs)
+                        nd[k]["detection"]["condition"] = cond
+                        nd[i]["filter"]["rules"] = "any"
+                        nd[i]["logsource"] = r["logsource"]
+                        out.append(dict(c, docs=nd))
     return out
 
 
